@@ -69,7 +69,9 @@ ASSUMPTIONS = [
 ]
 RULE = ("per runnable estimator (forecasters incl. composites, series / panel transformers, TSF/RISE/BOSS-family classifiers, TSF regressor) x containers "
         "(Series/DataFrame, nested DataFrame/3D array, RangeIndex/Int64Index) x seeded data (outliers, NaN) x random interleavings of repeated apply-type calls "
-        "on the original, on equal-parameter twins (n_jobs None/1/2/4, threading backend), on a freshly fitted twin per call and on a pickled copy; forecasters: "
+        "on the original, on equal-parameter twins (n_jobs None/1/2/4, threading backend), on a freshly fitted twin per call, on a pickled copy and on a deep copy, with ANOTHER object of the "
+        "class (equal parameters / default-constructed) fitted on other data and used in between; copies: observable state (cutoff, data, stored horizon values and kind) compared at restore time, "
+        "predict() without a horizon on every copy, pickled copy run through update + predict against a fresh twin; forecasters: horizon at fit relative or absolute, "
         "out-of-sample, in-sample and mixed horizons, relative and absolute, on ONE object, with a state digest (cutoff, remembered series, fitted flag, window "
         "length) before/after every call; every estimator with a random_state: seed forms 0, positive int, np.int64, RandomState instance built equal per copy "
         "(instance form skipped, and counted, where an apply-type method draws from it or the docstring says int only); forecaster histories through the state-machine model with the same horizon kinds; Hampel filter against its Lean model; Parallel under "
